@@ -36,9 +36,10 @@ type explorer struct {
 	run        *vk.Run
 	p          proto
 	al         []letter
-	letters    []int        // indices of the letters this configuration enumerates
-	onlyWith   map[int]bool // when set: only paths containing one of these letters are recorded (the others belong to another configuration)
-	atMostOne  map[int]bool // at most one letter of this set per path
+	letters    []int                     // indices of the letters this configuration enumerates
+	onlyWith   map[int]bool              // when set: only paths containing one of these letters are recorded (the others belong to another configuration)
+	atMostOne  map[int]bool              // at most one letter of this set per path
+	recordIf   func(nmsgs, dev int) bool // when set: only these paths are recorded (the others belong to the main configuration)
 	b          bounds
 	shardDepth int
 	unit       int64
@@ -202,6 +203,13 @@ func (x *explorer) visit(path []token, nmsgs int, record bool) *runResult {
 			}
 		}
 	}
+	if record && x.recordIf != nil {
+		d := 0
+		for _, t := range path {
+			d += t.dev()
+		}
+		record = x.recordIf(nmsgs, d)
+	}
 	if !record {
 		return res
 	}
@@ -337,6 +345,14 @@ func (x *explorer) explore(path []token, nmsgs, dev int, res *runResult, mine bo
 				x.explore(vchild, nmsgs+1, dev+1, vres, rec)
 			}
 		}
+		if cres.Cancelled && dev+1 <= x.b.dev(nmsgs+1) {
+			// the execution this message cancelled is slow to return: its return becomes a later event
+			vchild := clonePath(path, token{M: li, Mode: "hold"})
+			vres := x.visit(vchild, nmsgs+1, rec)
+			if !vres.Undeliverable {
+				x.explore(vchild, nmsgs+1, dev+1, vres, rec)
+			}
+		}
 		if x.expired() {
 			return
 		}
@@ -364,6 +380,8 @@ func TestCheck(t *testing.T) {
 		name  string
 		extra bool // the small alphabet around the three kinds of undeterminable documents
 		trail bool // the small alphabet around the trailing-content frames (at most one per sequence)
+		bad   bool // the small alphabet around subscribe/start with an undecodable payload
+		reuse bool // graphql-transport-ws, quick only: id re-use at 4 messages with 2 deviations (the main configuration stops at 1)
 	}
 	var cfgs []cfg
 	if run.Thorough() {
@@ -374,6 +392,8 @@ func TestCheck(t *testing.T) {
 			{p: protoLegacy, b: bounds{maxLen: 4, devByLen: []int{2}}, extra: true},
 			{p: protoTransport, b: bounds{maxLen: 4, devByLen: []int{2, 2, 2, 2, 1}}, trail: true},
 			{p: protoLegacy, b: bounds{maxLen: 4, devByLen: []int{2, 2, 2, 2, 1}}, trail: true},
+			{p: protoTransport, b: bounds{maxLen: 4, devByLen: []int{2}}, bad: true},
+			{p: protoLegacy, b: bounds{maxLen: 4, devByLen: []int{2}}, bad: true},
 		}
 	} else {
 		cfgs = []cfg{
@@ -383,6 +403,9 @@ func TestCheck(t *testing.T) {
 			{p: protoLegacy, b: bounds{maxLen: 3, devByLen: []int{1}}, extra: true},
 			{p: protoTransport, b: bounds{maxLen: 3, devByLen: []int{1}}, trail: true},
 			{p: protoLegacy, b: bounds{maxLen: 3, devByLen: []int{1, 1, 1, 0}}, trail: true},
+			{p: protoTransport, b: bounds{maxLen: 3, devByLen: []int{1}}, bad: true},
+			{p: protoLegacy, b: bounds{maxLen: 3, devByLen: []int{1}}, bad: true},
+			{p: protoTransport, b: bounds{maxLen: 4, devByLen: []int{2}}, reuse: true},
 		}
 	}
 	if o := os.Getenv("C19_BOUNDS"); o != "" {
@@ -411,13 +434,19 @@ func TestCheck(t *testing.T) {
 		if c.trail {
 			c.name += " (trailing-content alphabet, at most one such frame per sequence)"
 		}
+		if c.bad {
+			c.name += " (undecodable-subscribe-payload alphabet)"
+		}
+		if c.reuse {
+			c.name += " (id re-use alphabet, only sequences of 4 messages with 2 deviations)"
+		}
 		run.Bound("max_messages:"+c.name, c.b.maxLen)
 		var d []string
 		for n := 0; n <= c.b.maxLen; n++ {
 			d = append(d, fmt.Sprintf("%d msgs: <=%d", n, c.b.dev(n)))
 		}
 		run.Bound("max_deviations:"+c.name, strings.Join(d, ", "))
-		li, _, _ := configLetters(c.p, c.extra, c.trail)
+		li, _, _ := configLetters(c.p, c.extra, c.trail, c.bad, c.reuse)
 		var ns []string
 		for _, k := range li {
 			ns = append(ns, alphabet(c.p)[k].Name)
@@ -462,7 +491,10 @@ func TestCheck(t *testing.T) {
 		leaked := 0
 		for _, c := range cfgs {
 			x := &explorer{run: run, p: c.p, al: alphabet(c.p), b: c.b, shardDepth: 3, shrunk: map[string]*vk.Violation{}}
-			x.letters, x.onlyWith, x.atMostOne = configLetters(c.p, c.extra, c.trail)
+			x.letters, x.onlyWith, x.atMostOne = configLetters(c.p, c.extra, c.trail, c.bad, c.reuse)
+			if c.reuse {
+				x.recordIf = func(nmsgs, dev int) bool { return nmsgs == 4 && dev == 2 }
+			}
 			root := x.visit(nil, 0, run.Shard() == 0)
 			x.explore(nil, 0, 0, root, run.Shard() == 0)
 			leaked += x.leaked
@@ -486,8 +518,33 @@ func TestCheck(t *testing.T) {
 // extra configuration enumerates a small alphabet (init, query, subscription and
 // complete/stop for id 1, all three kinds of undeterminable documents) and records only
 // the paths that contain one of the two kinds the main configuration does not have.
-func configLetters(p proto, extra, trail bool) (letters []int, onlyWith, atMostOne map[int]bool) {
+func configLetters(p proto, extra, trail, bad, reuse bool) (letters []int, onlyWith, atMostOne map[int]bool) {
 	al := alphabet(p)
+	if reuse {
+		// connection_init, subscribe(1,query), subscribe(1,subscription), complete(1)
+		for i, l := range al {
+			if !l.Trail && !l.Undet && !l.BadPayload && (l.Kind == kInit || l.Kind == kSubscribe && l.ID == "1" || l.Kind == kComplete && l.ID == "1") {
+				letters = append(letters, i)
+			}
+		}
+		return letters, nil, nil
+	}
+	if bad {
+		// connection_init, subscribe/start(1,query), complete/stop(1) and the four undecodable
+		// payloads; only the sequences that contain one of them are recorded
+		onlyWith = map[int]bool{}
+		for i, l := range al {
+			switch {
+			case l.BadPayload:
+				letters = append(letters, i)
+				onlyWith[i] = true
+			case l.Trail, l.Undet:
+			case l.Kind == kInit, l.Kind == kSubscribe && l.ID == "1" && !l.Sub, l.Kind == kComplete && l.ID == "1":
+				letters = append(letters, i)
+			}
+		}
+		return letters, onlyWith, nil
+	}
 	if trail {
 		// connection_init, subscribe/start(1,subscription), complete/stop(1) and every trailing-content
 		// frame; only the sequences that contain such a frame (exactly one) are recorded
@@ -497,6 +554,7 @@ func configLetters(p proto, extra, trail bool) (letters []int, onlyWith, atMostO
 			case l.Trail:
 				letters = append(letters, i)
 				onlyWith[i] = true
+			case l.BadPayload:
 			case l.Kind == kInit, l.Kind == kSubscribe && l.ID == "1" && l.Sub, l.Kind == kComplete && l.ID == "1":
 				letters = append(letters, i)
 			}
@@ -524,7 +582,7 @@ func configLetters(p proto, extra, trail bool) (letters []int, onlyWith, atMostO
 			if i != first {
 				onlyWith[i] = true
 			}
-		case l.Trail:
+		case l.Trail, l.BadPayload:
 		case l.Kind == kInit, l.Kind == kSubscribe && l.ID == "1", l.Kind == kComplete && l.ID == "1":
 			letters = append(letters, i)
 		}
